@@ -600,7 +600,7 @@ def run(ctx):
     exh_len = 3 if ctx.tier == "quick" else 4
     if ctx.widen > 1:
         exh_len = 4
-    nsample = ctx.budget(350, 2500)
+    nsample = min(ctx.budget(350, 2500), 6000)     # cap for the widened search
     plan = []
     for c in ctx.corpus():
         plan.append(c["case"] if "case" in c else c)
@@ -683,7 +683,7 @@ def run(ctx):
              "spec_argv": "argv is not the executable followed by the template's tokens in template order",
              "tie_fields": "model/impl: fields", "tie_argv": "model/impl: argv"}
     for name in ("spec_fields", "spec_argv", "tie_fields", "tie_argv"):
-        for i in res[name][:15]:
+        for i in res[name][:3]:
             m = meta[i]
             out.failures.append(Failure(case={"template": m["template"], "ast": m["ast"]},
                                         observed={"fields": m["fields"], "define_error": m["define_error"], "argv": m["argv"]},
